@@ -463,16 +463,19 @@ pub fn read_operations_since(since: u64) -> HashMap<String, OpLogRecord> {
     // Oldest file first and the current file last, so the record that stays in the map for a
     // key is its most recent one
     let oplog_entries = get_op_log_entries_by_creation_date();
+    // The position of a record counts on from file to file: the operations are replayed in the
+    // order of their positions, a record of a newer file comes after every record of an older one
+    let mut opp_count: u64 = 0;
     for oplog_file_entry in oplog_entries.iter().rev() {
         let file_name = oplog_file_entry.file_name().into_string().unwrap();
         if file_name.ends_with(".op") {
             let full_path = format!("{}/{}", get_op_log_dir_name(), file_name);
             let f = get_log_file_read_mode(&full_path);
-            read_operations_since_from_file(f, since, &mut opps_since);
+            read_operations_since_from_file(f, since, &mut opps_since, &mut opp_count);
         }
     }
     let f = get_log_file_read_mode(&Oplog::get_op_log_file_name());
-    read_operations_since_from_file(f, since, &mut opps_since);
+    read_operations_since_from_file(f, since, &mut opps_since, &mut opp_count);
 
     opps_since
 }
@@ -503,6 +506,7 @@ fn read_operations_since_from_file(
     mut f: File,
     since: u64,
     opps_since: &mut HashMap<String, OpLogRecord>,
+    opp_count: &mut u64,
 ) {
     let total_size = f.metadata().unwrap().len();
     let size_as_u64 = OP_RECORD_SIZE as u64;
@@ -515,7 +519,6 @@ fn read_operations_since_from_file(
     let mut oop_buffer = [0; 1];
     f.seek(SeekFrom::Start(seek_point)).unwrap();
     let now = Instant::now();
-    let mut opp_count: u64 = 0;
     while let Ok(i) = f.read(&mut time_buffer) {
         //Read key from disk
         let possible_records = (max - min) / size_as_u64;
@@ -554,8 +557,8 @@ fn read_operations_since_from_file(
                 let key_id: u64 = u64::from_le_bytes(key_buffer);
                 let db_id: u64 = u64::from_le_bytes(db_id_buffer);
                 let opp = ReplicateOpp::from(oop_buffer[0]);
-                opp_count = opp_count + 1; //opps_since.len() don't work
-                let op_log = OpLogRecord::new(db_id, key_id, opp_time, opp_count, opp);
+                *opp_count = *opp_count + 1; //opps_since.len() don't work
+                let op_log = OpLogRecord::new(db_id, key_id, opp_time, *opp_count, opp);
                 opps_since.insert(op_log.to_key(), op_log); //Needs to be one by database
 
                 if let Err(_) = f.read(&mut time_buffer) {
